@@ -15,17 +15,21 @@
      a2a_guard f           THE decidable guard (evaluated on every program of the correspondence
                            run): no name starts with `__`, `_temptup`, `_iftarg`, `_forit`; bool / int constants only; no `**`; a
                            subscript is indexed by a constant or by the variable of an enclosing loop
-                           over range / constants; no call of len / sum / all / any / min / max / abs /
-                           print / ord / chr, range only as a loop iterator; a tuple target only with
+                           over range / constants; no call of abs / print / ord / chr, range only as a
+                           loop iterator, len / sum / all / any / min / max only of ONE typed tuple
+                           argument (sum: >= 2 elements; all / any: >= 1 element, all annotated bool;
+                           min / max: >= 1 element, all annotated bool or all Qint[..]); a tuple target only with
                            a literal tuple / list of the same length, or a typed tuple argument of that
                            length, on the right; loops over range(...), over a literal tuple / list of
                            bool / int constants, or over a typed tuple argument; the typed tuple
                            arguments (annotation Tuple[...], which is what Qlist / Qmatrix become)
                            are never re-bound
      plen_of f a           the length of the typed tuple argument a (None: not one)
-     conforms f rho        rho gives every typed tuple argument a tuple of the annotated length
-     gstmt okn plen lv s   the same guard with [okn] the admissible names, [plen] the typed tuple
-                           arguments, [lv] the index-capable loop variables
+     conforms f rho        rho gives every typed tuple argument a tuple of the annotated length, of
+                           booleans / integers when all its elements are annotated bool / Qint[..]
+     pbool_of, pint_of     the typed tuple arguments all of whose elements are annotated bool / Qint[..]
+     gstmt okn plen pbool pint lv s   the same guard with [okn] the admissible names, [plen] [pbool]
+                           [pint] the typed tuple arguments and their kinds, [lv] the index-capable loop variables
      bsim plen rho0 P f g  backward simulation: whenever g (the rewritten code) has an outcome from an
                            environment in which the typed arguments have their initial value (rho0),
                            f (the original) has one from every environment agreeing with it on the
@@ -216,4 +220,28 @@ Example underscore_names_in_guard :
                    [SAssign (TName "_x") (EUnOp Not (EName "_a"));
                     SIf (EName "_x") [SAssign (TName "_x") (EName "_a")] [];
                     SReturn (EName "_x")]) = true.
+Proof. vm_compute. reflexivity. Qed.
+
+(* the builtin expansions over typed tuple arguments
+   def ex3(a: Qlist[bool, 3], q: Qlist[Qint[2], 3]) -> Qint[4]:
+       s = sum(q) + len(a)
+       if all(a) or not any(a):
+           s = s + max(q)
+       return s - min(q) *)
+Definition ex3_fun : fundef :=
+  mkfun [("a", ann_b3); ("q", Some (ESubscript (EName "Tuple") (ETuple [ann_q2; ann_q2; ann_q2])))]
+        (Some (ESubscript (EName "Qint") (EConst (CInt 4))))
+        [SAssign (TName "s") (EBinOp Add (ECall "sum" [EName "q"]) (ECall "len" [EName "a"]));
+         SIf (EBoolOp Or [ECall "all" [EName "a"]; EUnOp Not (ECall "any" [EName "a"])])
+             [SAssign (TName "s") (EBinOp Add (EName "s") (ECall "max" [EName "q"]))] [];
+         SReturn (EBinOp Sub (EName "s") (ECall "min" [EName "q"]))].
+Definition ex3_env : env :=
+  env_of [("a", VTup [VBool true; VBool false; VBool true]); ("q", VTup [VInt 1; VInt 3; VInt 2])].
+Example ex3_in_guard : a2a_guard ex3_fun = true.
+Proof. vm_compute. reflexivity. Qed.
+Example ex3_conforms : conforms ex3_fun ex3_env.
+Proof. apply conforms_check. vm_compute. reflexivity. Qed.
+Example ex3_rewritten : match a2a ex3_fun with Ok b' => run no_ext b' ex3_env | _ => None end = Some (VInt 8).
+Proof. vm_compute. reflexivity. Qed.
+Example ex3_source : run no_ext (f_body ex3_fun) ex3_env = Some (VInt 8).
 Proof. vm_compute. reflexivity. Qed.
